@@ -31,6 +31,53 @@ theorem agentCause_tie :
     ∧ Gen.bootstrapReadsSignal = true ∧ Gen.bootstrapDefault = "FAILED" := by
   decide
 
+/-- no handler of `Agent_0` writes the cause after it called `stop()` (read from the source) -/
+def settledBeforeStop : List String → Bool
+  | []      => true
+  | a :: as => if a = "stop" then as.all (fun x => !(x.startsWith "set")) else settledBeforeStop as
+
+theorem C14_cause_settled_before_stop : Gen.causeWrites.all (fun m => settledBeforeStop m.2) = true := by decide
+
+/-- **the cause is settled before the termination event is set**: when a handler records its cause
+    and then stops, `finalize` - at whatever moment after the `stop()` it runs in the other thread -
+    sees that cause; with the two statements the other way round it could see the default 'cancel'
+    (the witness is what a swapped `_check_lifetime` does) -/
+theorem C14_cause_observable (x : Cause) (hx : x ≠ .none) (c : Cause) :
+    observable c [.set x, .stop] = [x] := by
+  simp [observable, hx]
+
+theorem C14_cause_order_witness : observable .none [.stop, .set .timeout] = [.cancel, .timeout] := by decide
+
+/-- `finalize` racing with the stopping thread: the state written is DONE if the first event that
+    stops the agent is the expired lifetime, CANCELED if it is a cancel request or a terminate -/
+theorem C14_cause_at_first_stop (pre post : List Ev) (e : Ev) (he : stops e = true) (hpre : ∀ x ∈ pre, stops x = false) :
+    causeAtFirstStop .none (pre ++ e :: post) = some (step .none e)
+    ∧ (e = .lifetimeExpired → finalState (step .none e) = .done)
+    ∧ (e ≠ .lifetimeExpired → finalState (step .none e) = .canceled) := by
+  have hrun : ∀ (c : Cause) (l : List Ev), (∀ x ∈ l, stops x = false) → c = .none →
+      causeAtFirstStop c (l ++ e :: post) = some (step .none e) := by
+    intro c l
+    induction l generalizing c with
+    | nil => intro _ hc; subst hc; simp [causeAtFirstStop, he]
+    | cons y ys ih =>
+      intro hl hc
+      subst hc
+      have hy : stops y = false := hl y List.mem_cons_self
+      have hstep : step .none y = .none := by
+        cases y with
+        | lifetimeExpired => simp [stops] at hy
+        | terminateCmd => simp [stops] at hy
+        | cancelCmd n => cases n <;> simp_all [stops, step]
+      simp only [List.cons_append, causeAtFirstStop, hy, Bool.false_eq_true, if_false, hstep]
+      exact ih .none (fun x hx => hl x (List.mem_cons_of_mem _ hx)) rfl
+  refine ⟨hrun .none pre hpre rfl, ?_, ?_⟩
+  · intro h; subst h; rfl
+  · intro h
+    cases e with
+    | lifetimeExpired => exact absurd rfl h
+    | terminateCmd => rfl
+    | cancelCmd n => cases n <;> simp_all [stops, step, stop, finalState]
+
 /-! ## notification path -/
 
 /-- one step seen by a PILOT_STATE callback: the same state again (a repeated
